@@ -393,6 +393,12 @@ def run_suite(pid, suite, tier, seed, workdir, log, replay=None):
                     inp = {"suite": suite, "op": op.strip()[:2000], "class": "marshal-accepts-unreadable"}
                     if len(r["propfails"]) < 50:
                         r["propfails"].append({"kind": "roundtrip", "desc": "Marshal accepted the value but Unmarshal(Marshal(v)) gave " + g.strip(), "input": inp})
+                if g.strip() in ("panic", "timeout") or g.startswith("panic ") or g.startswith("timeout "):
+                    # the implementation did not return normally on this operation (recover / watchdog in the harness)
+                    inp = {"suite": suite, "op": op.strip()[:3000]}
+                    if len(r["propfails"]) < 50:
+                        r["propfails"].append({"kind": "op-" + g.strip().split(" ")[0], "desc": "the implementation did not return normally: " + g.strip()[:80], "input": inp})
+                    r["stats"]["propfail:op-panic"] = r["stats"].get("propfail:op-panic", 0) + 1
                 if word == "restable" and g.strip() == "remarshal-failed" and l.strip() == "remarshal-failed":
                     # Unmarshal accepted a string whose value Marshal refuses to write: nothing it could be a respelling of
                     inp = {"suite": suite, "op": op.strip()[:2000]}
